@@ -86,6 +86,15 @@ func body(s *simrt.Sim, tier string) {
 		// slow links, so that the loss of sources lands in the middle of a transfer
 		c.NW.MaxLatency = time.Duration(100+tp.Draw(900)) * time.Millisecond
 	}
+	// The completion notice of a finished download is sent by a task of its
+	// own; in some runs it is slow (site-armed pause), so that preemption ticks
+	// are applied between the last piece and the notice.
+	if tp.Chance(400) {
+		for i := 0; i < nLeech; i++ {
+			s.ArmPauseAt("liftedEventLoop).DispatcherComplete", nil, 0, time.Duration(1+tp.Draw(2*int(sc.PreemptionInterval/time.Second)+2))*time.Second)
+		}
+		s.Probe("slow_completion_notice_armed")
+	}
 	agents := []*cluster.Agent{seeder}
 	results := []*dlRes{&r0}
 	var cutAt time.Duration = -1
